@@ -25,6 +25,7 @@ type Result struct {
 	Probe     string            `json:"probe,omitempty"`
 	Workable  string            `json:"workable,omitempty"`
 	LoadReset bool              `json:"load_reset,omitempty"`
+	Restart   bool              `json:"restart_needed,omitempty"`
 }
 
 type Child struct {
